@@ -521,6 +521,8 @@ class Lib:
             return self.dtype_eq(a, b)
         if isinstance(a, ClassVal) and isinstance(b, ClassVal):
             return a.name == b.name
+        if isinstance(a, SymSetLen) or isinstance(b, SymSetLen):
+            return _symset_len_eq(a, b) if isinstance(a, SymSetLen) else _symset_len_eq(b, a)
         raise EngineError(f"equality of {type(a).__name__} and {type(b).__name__}")
 
     def value_contains(self, interp, container, item):
@@ -881,6 +883,29 @@ class SymSetLen:
     """len(set(symbolic sequence)); only comparison with 1 is given a meaning (all elements equal)"""
     def __init__(self, s):
         self.s = s
+
+
+def _symset_len_eq(sl, k):
+    """len({e(s) for s in <symbolic sequence>}) == 1 when the element does not depend on the position: true iff the sequence is
+    non-empty.  (Elements that do depend on the position are outside the model.)"""
+    k = norm(k)
+    if not (is_conc(k) and int(k) == 1):
+        raise EngineError("len(set(symbolic sequence)) compared with a value other than 1")
+    seq = sl.s.seq
+    e1, e2 = seq.fn(sv.fresh_int("sa")), seq.fn(sv.fresh_int("sb"))
+
+    def same(x, y):
+        x, y = norm(x), norm(y)
+        if isinstance(x, tuple) and isinstance(y, tuple):
+            return len(x) == len(y) and all(same(p, q) for p, q in zip(x, y))
+        if isinstance(x, SV) and isinstance(y, SV):
+            return x.t.eq(y.t)
+        if is_conc(x) and is_conc(y):
+            return x == y
+        return False
+    if not same(e1, e2):
+        raise EngineError("len(set(...)) == 1 over a symbolic sequence whose elements depend on the position")
+    return sv.cmp(">=", seq.length, 1)
 
 
 def _b_int(interp, v=0, *a):
